@@ -251,7 +251,24 @@ Inductive doc :=
    - the element index GetPath() of an array scope shows while its first element is being loaded
      (RapidJSON / MsgPack have already advanced: 1; CSV row index: 0) *)
 Inductive nullstr := NullStrMismatch | NullStrSkip | NullStrEmpty.
-Record arch := mkArch { null_scope_is_mismatch : bool; null_str : nullstr; first_index : nat }.
+
+(* text_mode = Some names: the archive is a tree of named elements whose leaves are untyped text (XML through
+   pugixml, pugixml_archive.h).  What that changes for the scopes modelled here:
+   - scalars are text: a number / boolean is converted from the element's text with the policies
+     (LoadValueFromText), a string target takes any text; an element without text - child-less, or with element
+     children only - is "not loaded" for every scalar target ("Empty node is treated as Null");
+   - OpenArrayScope / OpenObjectScope accept every element that is child-less or has element children: a
+     child-less element opens as an EMPTY scope (since fixes 036fd0b / eb82056), an object's members are an
+     array scope's items (document order) and an array's items are an object scope's members, keyed by their
+     element names; an element with text is a mismatch;
+   - GetEstimatedSize() of an array scope is its number of children;
+   - GetPath() is pugi::xml_node::path(): the names of the ancestor-or-self elements, WITHOUT indices; the
+     object scope of the root value is the document's first element, so every path starts with its name.
+   [names] is the naming convention of the document encoder for elements that are not object members (the
+   library's own writer uses the same three names for array items): scalar / null, array, object. *)
+Record textnames := mkTextNames { tn_value : str; tn_array : str; tn_object : str }.
+Record arch := mkArch { null_scope_is_mismatch : bool; null_str : nullstr; first_index : nat;
+                        text_mode : option textnames }.
 
 Definition dkey_eqb (a b : dkey) : bool :=
   match a, b with
@@ -299,6 +316,53 @@ Definition parse_dec (l : str) : option Z :=
 
 Definition in_int32 (z : Z) : bool := (Z.leb (-2147483648) z && Z.leb z 2147483647)%bool.
 
+(* ---- text archives: how a typed target sees an element ---- *)
+Definition text_true : str := [116; 114; 117; 101]%N.           (* "true" *)
+Definition text_false : str := [102; 97; 108; 115; 101]%N.      (* "false" *)
+Definition bool_text (b : bool) : str := if b then text_true else text_false.
+
+(* the name the encoder gives an element that is not an object member *)
+Definition item_name (tn : textnames) (d : doc) : str :=
+  match d with DArr _ _ => tn_array tn | DMap _ => tn_object tn | _ => tn_value tn end.
+
+(* an arithmetic target: the text is converted (canonical decimal text only, see parse_dec); no text = null *)
+Definition text_as_int (d : doc) : doc :=
+  match d with
+  | DNull => DNull
+  | DInt z => DInt z
+  | DBool b => DStr (bool_text b)                       (* "true" is not a number: mismatch *)
+  | DStr [] => DNull
+  | DStr s => match parse_dec s with Some z => DInt z | None => DStr s end
+  | DArr _ _ | DMap _ => DNull                          (* element children, no text *)
+  end.
+(* Convert::To<bool>(text): "true" / "false", "0" / "1"; other digits are out of range (overflow policy), anything
+   else - a sign included - is not a boolean (mismatch policy) *)
+Definition text_as_bool (d : doc) : doc :=
+  match d with
+  | DNull => DNull
+  | DBool b => DBool b
+  | DInt z => if Z.ltb z 0 then DStr (dec_Z z) else DInt z
+  | DStr [] => DNull
+  | DStr s => if str_eqb s text_true then DBool true else if str_eqb s text_false then DBool false
+              else match parse_dec s with
+                   | Some z => if Z.ltb z 0 then DStr s else DInt z
+                   | None => DStr s
+                   end
+  | DArr _ _ | DMap _ => DNull
+  end.
+Definition text_as_str (d : doc) : doc :=
+  match d with
+  | DNull => DNull
+  | DBool b => DStr (bool_text b)
+  | DInt z => DStr (dec_Z z)
+  | DStr [] => DNull
+  | DStr s => DStr s
+  | DArr _ _ | DMap _ => DNull
+  end.
+Definition as_int (a : arch) (d : doc) : doc := match text_mode a with Some _ => text_as_int d | None => d end.
+Definition as_bool (a : arch) (d : doc) : doc := match text_mode a with Some _ => text_as_bool d | None => d end.
+Definition as_str (a : arch) (d : doc) : doc := match text_mode a with Some _ => text_as_str d | None => d end.
+
 (* Serialize on fundamental types and std::string (LoadValue of the scopes + ConvertByPolicy) *)
 Definition load_int (pl : pols) (p : Z) (d : doc) : outcome (Z * bool) :=
   match d with
@@ -327,16 +391,36 @@ Definition load_str (a : arch) (pl : pols) (p : str) (d : doc) : outcome (str * 
 
 (* OpenArrayScope / OpenObjectScope on a document: Some payload, None when not opened, or throw *)
 Definition open_array (a : arch) (pl : pols) (d : doc) : outcome (option (nat * list doc)) :=
-  match d with
-  | DArr est l => Ok (Some (est, l))
-  | DNull => if null_scope_is_mismatch a then on_mismatch pl None else Ok None
-  | _ => on_mismatch pl None
+  match text_mode a with
+  | Some _ =>
+      match d with
+      | DNull | DStr [] => Ok (Some (O, []))
+      | DArr _ l => Ok (Some (List.length l, l))
+      | DMap l => Ok (Some (List.length l, List.map snd l))
+      | _ => on_mismatch pl None
+      end
+  | None =>
+      match d with
+      | DArr est l => Ok (Some (est, l))
+      | DNull => if null_scope_is_mismatch a then on_mismatch pl None else Ok None
+      | _ => on_mismatch pl None
+      end
   end.
 Definition open_object (a : arch) (pl : pols) (d : doc) : outcome (option (list (dkey * doc))) :=
-  match d with
-  | DMap l => Ok (Some l)
-  | DNull => if null_scope_is_mismatch a then on_mismatch pl None else Ok None
-  | _ => on_mismatch pl None
+  match text_mode a with
+  | Some tn =>
+      match d with
+      | DNull | DStr [] => Ok (Some [])
+      | DMap l => Ok (Some l)
+      | DArr _ l => Ok (Some (List.map (fun x => (DKStr (item_name tn x), x)) l))
+      | _ => on_mismatch pl None
+      end
+  | None =>
+      match d with
+      | DMap l => Ok (Some l)
+      | DNull => if null_scope_is_mismatch a then on_mismatch pl None else Ok None
+      | _ => on_mismatch pl None
+      end
   end.
 
 Inductive keyty := KInt | KStr.
@@ -409,7 +493,10 @@ Definition conv_key (pl : pols) (kt : keyty) (dk : dkey) : outcome (option (tkey
 
 (* loading a key-typed value (set elements, the "key" member of a multimap's pair) *)
 Definition load_key (a : arch) (pl : pols) (kt : keyty) : tkey kt -> doc -> outcome (tkey kt * bool) :=
-  match kt with KInt => load_int pl | KStr => load_str a pl end.
+  match kt with
+  | KInt => fun p d => load_int pl p (as_int a d)
+  | KStr => fun p d => load_str a pl p (as_str a d)
+  end.
 
 (* std::set::insert / std::multiset::insert (the model keeps insertion order; observers sort) *)
 Definition set_ins (kt : keyty) (multi : bool) (v : tkey kt) (cont : list (tkey kt)) : list (tkey kt) :=
@@ -437,9 +524,9 @@ Definition seq_load {A D S} (k : seqkind) (el : A -> D -> S -> outcome (A * bool
    "loaded" result.  [p] is the prior content of the target. *)
 Fixpoint load (a : arch) (pl : pols) (t : ty) {struct t} : tval t -> doc -> outcome (tval t * bool) :=
   match t return tval t -> doc -> outcome (tval t * bool) with
-  | TInt => load_int pl
-  | TBool => load_bool pl
-  | TStr => load_str a pl
+  | TInt => fun p d => load_int pl p (as_int a d)
+  | TBool => fun p d => load_bool pl p (as_bool a d)
+  | TStr => fun p d => load_str a pl p (as_str a d)
   | TSeq k t' => fun p d =>
       sc <- open_array a pl d ;;
       match sc with
@@ -453,7 +540,7 @@ Fixpoint load (a : arch) (pl : pols) (t : ty) {struct t} : tval t -> doc -> outc
       match sc with
       | None => Ok (p, false)
       | Some (est, ds) =>
-          r <- unstate (load_vbool (fun x di (_ : unit) => lift (load_bool pl x di)) p est ds tt) ;;
+          r <- unstate (load_vbool (fun x di (_ : unit) => lift (load_bool pl x (as_bool a di))) p est ds tt) ;;
           Ok (r, true)
       end
   | TArr _ t' => fun p d =>
@@ -469,7 +556,7 @@ Fixpoint load (a : arch) (pl : pols) (t : ty) {struct t} : tval t -> doc -> outc
       match sc with
       | None => Ok (p, false)
       | Some (_, ds) =>
-          r <- unstate (load_bitset (fun x di (_ : unit) => lift (load_bool pl x di)) n ds false tt) ;;
+          r <- unstate (load_bitset (fun x di (_ : unit) => lift (load_bool pl x (as_bool a di))) n ds false tt) ;;
           Ok (r, true)
       end
   | TSet multi kt => fun p d =>
@@ -553,6 +640,13 @@ Definition load_map_mode (a : arch) (pl : pols) (mode : mapmode) (kt : keyty) (t
                (tdefault t') mode p (map fst members) tt) ;;
       Ok (r, true)
   end.
+
+(* XML through pugixml: a tree of named elements with text leaves; the three names are the ones the library's
+   writer (and the document encoder of the drivers) gives array items.  null_scope_is_mismatch / first_index are
+   not looked at in text mode (a child-less element opens as an empty scope; paths carry names, not indices) *)
+Definition xml_names : textnames :=
+  mkTextNames [118; 97; 108; 117; 101]%N [97; 114; 114; 97; 121]%N [111; 98; 106; 101; 99; 116]%N.
+Definition xml_arch : arch := mkArch false NullStrSkip 1 (Some xml_names).
 
 (* ------------------------------------------------------------------------------------------ *)
 (* Part 2 (C17): validators, VisitArgs, the validation context, classes with validated fields  *)
@@ -765,8 +859,8 @@ Definition view_of (t : fty) : fval t -> view :=
 
 Definition load_leaf (a : arch) (pl : pols) (l : leafty) : leafval l -> doc -> outcome (leafval l * bool) :=
   match l with
-  | LInt => load_int pl
-  | LStr => load_str a pl
+  | LInt => fun p d => load_int pl p (as_int a d)
+  | LStr => fun p d => load_str a pl p (as_str a d)
   | LVecInt => load a pl (TSeq SVector TInt)
   end.
 
@@ -777,6 +871,14 @@ Definition key_text (k : dkey) : str := match k with DKInt z => dec_Z z | DKStr 
    loaded (the scope has already advanced: first element = 1) *)
 Fixpoint number_from (i : nat) (l : list doc) : list (nat * doc) :=
   match l with [] => [] | d :: l' => (i, d) :: number_from (Datatypes.S i) l' end.
+
+(* the path component GetPath() adds for the i-th element document d of an array scope: its index, or - in a
+   text archive - the name of the element (items of one array share their path) *)
+Definition item_seg (a : arch) (i : nat) (d : doc) : str :=
+  match text_mode a with Some tn => item_name tn d | None => dec_N (N.of_nat i) end.
+(* GetPath() of the scope that the root value opens *)
+Definition root_path (a : arch) (d : doc) : str :=
+  match text_mode a with Some tn => (slash ++ item_name tn d)%list | None => [] end.
 
 Section ClassLoader.
   Variable a : arch.
@@ -817,7 +919,7 @@ Section ClassLoader.
                     match so with
                     | None => Ok (x, false, c')
                     | Some ms =>
-                        '(x1, c2) <- load_fields fs (path ++ slash ++ dec_N (N.of_nat (fst id)))%list x ms c' ;;
+                        '(x1, c2) <- load_fields fs (path ++ slash ++ item_seg a (fst id) (snd id))%list x ms c' ;;
                         Ok (x1, true, c2)
                     end)
                  (fsdefault fs) true v est (number_from (first_index a) ds) c ;;
@@ -863,13 +965,13 @@ End ClassLoader.
 
 (* BitSerializer::LoadObject<Archive>(object, input, options) into a default-constructed object *)
 Definition load_root (a : arch) (pl : pols) (max : N) (t : fty) (d : doc) : outcome (fval t) :=
-  '(v, _, m) <- load_fty a pl (add_validation_error max) t [] (fdefault t) d [] ;;
+  '(v, _, m) <- load_fty a pl (add_validation_error max) t (root_path a d) (fdefault t) d [] ;;
   _ <- on_finish m ;;
   Ok v.
 
 (* the same load with validation switched off, and with the AddValidationError calls only recorded *)
 Definition load_plain (a : arch) (pl : pols) (t : fty) (d : doc) : outcome (fval t) :=
-  '(v, _, _) <- load_fty a pl (fun (c : unit) _ _ => Ok c) t [] (fdefault t) d tt ;; Ok v.
+  '(v, _, _) <- load_fty a pl (fun (c : unit) _ _ => Ok c) t (root_path a d) (fdefault t) d tt ;; Ok v.
 Definition load_recording (a : arch) (pl : pols) (t : fty) (d : doc) : outcome (fval t * list (str * str)) :=
-  '(v, _, l) <- load_fty a pl (fun (c : list (str * str)) p m => Ok (c ++ [(p, m)])) t [] (fdefault t) d [] ;;
+  '(v, _, l) <- load_fty a pl (fun (c : list (str * str)) p m => Ok (c ++ [(p, m)])) t (root_path a d) (fdefault t) d [] ;;
   Ok (v, l).
